@@ -316,6 +316,25 @@ func registerMisc(e *engine) {
 	e.reg("(*time.Ticker).Reset", func(fr *frame, fn *ssa.Function, a []value) value { return nil })
 	e.reg("(*time.Timer).Stop", func(fr *frame, fn *ssa.Function, a []value) value { return true })
 	e.reg("(*time.Timer).Reset", func(fr *frame, fn *ssa.Function, a []value) value { return true })
+	// contexts are opaque tokens: nothing the checked code does depends on them (deadlines / cancellation are not modelled)
+	for _, n := range []string{"context.TODO", "context.Background"} {
+		e.reg(n, func(fr *frame, fn *ssa.Function, a []value) value { return iface{} })
+	}
+	// hex encoding of symbolic bytes without table look-ups (the package is otherwise interpreted)
+	e.reg("encoding/hex.EncodeToString", func(fr *frame, fn *ssa.Function, a []value) value {
+		src, _ := a[0].([]value)
+		return mkStr(fr.m.hexBytes(src))
+	})
+	e.reg("encoding/hex.Encode", func(fr *frame, fn *ssa.Function, a []value) value {
+		dst, _ := a[0].([]value)
+		src, _ := a[1].([]value)
+		h := fr.m.hexBytes(src)
+		if len(dst) < len(h) {
+			fr.m.runtimePanic("index out of range")
+		}
+		copy(dst, h)
+		return len(h)
+	})
 	e.reg("github.com/golang/protobuf/proto.EnumName", func(fr *frame, fn *ssa.Function, a []value) value {
 		m := fr.m
 		mp, _ := a[0].(*Map)
